@@ -1,0 +1,16 @@
+//go:build verif
+
+package spine
+
+import "github.com/enbility/spine-go/api"
+
+// Verification hooks (build tag verif only): let a harness observe events at core
+// level, i.e. synchronously and in publication order.
+
+func VerifStackSubscribeCore(h api.EventHandlerInterface) error {
+	return Events.subscribe(api.EventHandlerLevelCore, h)
+}
+
+func VerifStackUnsubscribeCore(h api.EventHandlerInterface) error {
+	return Events.unsubscribe(api.EventHandlerLevelCore, h)
+}
